@@ -521,6 +521,10 @@ def collection(prog, chk):
                             good = False
                 ok = good
                 detail = "both inserts are on every path of the Start and Empty arms" if good else "a Start/Empty event can be skipped by the class/element collection"
+    if not ok and detail == "no loop over the output events":
+        # the scan is not a loop of write_auto_styles with two inserts (it may live in a helper type, be an iterator chain ..)
+        chk.undecided("A13.collect-all", "write_auto_styles", wa.where(), "write_auto_styles has no loop over the output events that inserts into the class and element sets: where the collection happens is not read here")
+        return
     chk.ob(ok, "A13.collect-all", "write_auto_styles", wa.where(), "classes and element names are collected from every Start and Empty output event, unconditionally (also inside <defs>)", "the class/element collection skips some output elements: a reserved class used only there gets no rule or definition - " + detail)
 
 
@@ -701,6 +705,9 @@ def unfiltered_output(prog, chk):
     for name in ("get_defs", "get_styles"):
         calls = [m for m in hirq.exprs(h["body"], "MethodCall") if m["name"] == name]
         ok = len(calls) == 1 and id(calls[0]) in direct
+        if not calls:
+            chk.undecided("A10.unfiltered-output", f"write_auto_styles:{name}", b.where(), f"write_auto_styles does not call {name}(): how it obtains the generated text is not read here")
+            continue
         chk.ob(ok, "A10.unfiltered-output", f"write_auto_styles:{name}", b.where(line=calls[0].get("line") if calls else None), f"the result of {name}() is written as produced by the theme builder", f"the result of {name}() is post-processed (filtered / mapped) before it is written, or read more than once: an emitted rule can lose the definition it references (or vice versa)")
 
 
